@@ -194,7 +194,12 @@ def filename_rules(ctx, repo):
         ctx.ob("F28", rel + ":<module>", "reservedFileNames are lower case (compared with part.lower())", all(r == r.lower() for r in res))
         # algorithm
         u = m.func("userNameToFileName")
-        txt = norm(u.node)
+        from ..core import private_callees, inline_locals
+        from ..cfg import implied_conditions
+        from ..consteval import cnorm
+
+        # text of the function together with the private helpers it delegates to (extract-function refactorings)
+        txt = norm(u.node) + "\n" + "\n".join(norm(h.node) for h in private_callees(repo, u))
         ok = "sliceLength = maxFileNameLength - prefixLength - suffixLength" in txt and "userName = userName[:sliceLength]" in txt
         ctx.ob("F25-name", u.where, "clip to maxFileNameLength - len(prefix) - len(suffix)", ok, "" if ok else "result can exceed the length limit")
         rets = [n for n in walk_no_nested(u.node) if isinstance(n, ast.Return)]
@@ -206,15 +211,21 @@ def filename_rules(ctx, repo):
         ctx.ob("F25-name", u.where, "illegal characters replaced, upper case marked, reserved parts prefixed", ok)
         for hn in ("handleClash1", "handleClash2"):
             h = m.func(hn)
-            assigns = [n for n in walk_no_nested(h.node) if isinstance(n, ast.Assign) and norm(n.targets[0]) == "finalName" and norm(n.value) == "fullName"]
-            ok = bool(assigns) and all(any(norm(t) == "fullName.lower() not in existing" for t, pol in guard_conditions(a) if pol) for a in assigns)
+            hg = CFG(h.node)
+            # every place where the candidate becomes the result: `finalName = fullName` or `return fullName`
+            accepts = [n for n in walk_no_nested(h.node) if isinstance(n, ast.Assign) and norm(n.value) == "fullName" and isinstance(n.targets[0], ast.Name)]
+            accepts += [n for n in walk_no_nested(h.node) if isinstance(n, ast.Return) and n.value is not None and norm(n.value) == "fullName"]
+            ok = bool(accepts) and all(("fullName.lower() in existing", False) in implied_conditions(hg, a) for a in accepts)
             ctx.ob("F25-name", h.where, "finalName = fullName only under `fullName.lower() not in existing`", ok, "" if ok else "a candidate is accepted without the uniqueness test")
         h2 = m.func("handleClash2")
-        ok = any(isinstance(n, ast.Raise) and "NameTranslationError" in norm(n) for n in walk_no_nested(h2.node)) and norm(h2.node.body[-1]) == "return finalName"
+        last = h2.node.body[-1]
+        ok = any(isinstance(n, ast.Raise) and "NameTranslationError" in norm(n) for n in walk_no_nested(h2.node)) and (norm(last) == "return finalName" or isinstance(last, ast.Raise) and "NameTranslationError" in norm(last))
         ctx.ob("F25-name", h2.where, "exhaustion raises NameTranslationError", ok)
         h1 = m.func("handleClash1")
-        txt = norm(h1.node)
-        ok = "prefixLength + len(userName) + suffixLength + 15 > maxFileNameLength" in txt and "zfill(15)" in txt
+        from ..consteval import env_of
+
+        tests = [cnorm(inline_locals(h1.node, n.test), env_of(h1.node)) for n in walk_no_nested(h1.node) if isinstance(n, ast.If)]
+        ok = any(t in ("len(prefix) + len(userName) + len(suffix) + 15 > 255", "prefixLength + len(userName) + suffixLength + 15 > 255") for t in tests) and "zfill(15)" in norm(h1.node)
         ctx.ob("F25-name", h1.where, "room for the 15-digit counter is reserved before it is appended", ok)
     # callers: every function that passes a set of existing names to the translators
     n_callers = 0
